@@ -6,6 +6,7 @@
 #include "managers/types/manager.h"
 #include "managers/variables/manager.h"
 #include "managers/variables/static.h"
+#include "services/debug_service.h"
 #include <string>
 #include <vector>
 
@@ -32,6 +33,30 @@ TypeInfo Interpreter::string_to_type_info(const std::string &type_str) {
 void Interpreter::check_type_range(TypeInfo type, int64_t value,
                                    const std::string &name, bool is_unsigned) {
     type_manager_->check_type_range(type, value, name, is_unsigned);
+}
+
+int64_t Interpreter::range_checked_store_value(TypeInfo type, bool is_unsigned,
+                                               int64_t value,
+                                               const std::string &name) {
+    switch (type) {
+    case TYPE_TINY:
+    case TYPE_SHORT:
+    case TYPE_INT:
+    case TYPE_LONG:
+    case TYPE_CHAR:
+        break;
+    default:
+        return value; // not an integer location: nothing to check
+    }
+    if (is_unsigned && value < 0) {
+        DEBUG_WARN(VARIABLE,
+                   "Unsigned target %s received negative value (%lld); "
+                   "clamping to 0",
+                   name.c_str(), static_cast<long long>(value));
+        value = 0;
+    }
+    type_manager_->check_type_range(type, value, name, is_unsigned);
+    return value;
 }
 
 // ========================================================================
